@@ -11,6 +11,7 @@ LIT = {0: '\n', 1: ' ', 2: '-', 3: 'N ', 4: ' R ', 5: 'spline cubic\n', 6: 'pair
        25: 'fcc', 26: 'bcc', 27: 'hcp'}
 FN_NAMES = {0: 'pair', 1: 'dipole', 2: 'quadrupole', 3: 'embed', 4: 'density', 5: 'density_fs'}
 
+CELLS = []    # (format code, value) of the number cells rendered in this run: sampled by fmt_common.check_formats
 LAST = {}     # the most recently created Recorder / output file (inspected after an injected fault)
 
 class Recorder(object):
@@ -129,8 +130,10 @@ def render_and_compare(tokens, evs, labels, actual):
         elif kind == 2: s, isq = fmt(f, t[2]), False
         elif kind == 3:
             q = fractions.Fraction(t[2], t[3]); s, isq = fmt(f, float(q)), True
+            if len(CELLS) < 20000: CELLS.append((f, float(q)))
         elif kind == 4:
-            s, isq = fmt(f, value_of(t[3], t[4], t[2], evs)), False
+            xv = value_of(t[3], t[4], t[2], evs); s, isq = fmt(f, xv), False
+            if len(CELLS) < 20000: CELLS.append((f, xv))
         else: raise Broken('correspondence', 'token kind %r' % (kind,))
         if isq:
             # a number computed from the grid: read the whole number the file has at this position (its printed form may be longer
